@@ -775,6 +775,20 @@ def _loss_reads_raise_eof_with_text():
     return "true" if ok else "false"
 
 
+@fact("loss_socket_reset_is_eof", "bool", "false")
+def _loss_socket_reset_is_eof():
+    """SocketIO.read: a recv() that raises ConnectionError (reset by a dying peer) counts as end of stream -- the only
+    exception the receive loop lets out of the socket read is EOFError (receiver thread: `except EOFError` records
+    gateway._error, which waitclose() raises)"""
+    f = find("gateway_socket.py", "SocketIO.read")
+    tries = [n for n in ast.walk(f) if isinstance(n, ast.Try)]
+    ok = len(tries) == 1 and _src(tries[0].body[0]) == "t = self.sock.recv(numbytes - len(buf))" and len(tries[0].handlers) == 1
+    ok = ok and _src(tries[0].handlers[0].type) in ("ConnectionError", "OSError") and [_src(x) for x in tries[0].handlers[0].body] == ["t = b''"]
+    r = _src(find("gateway_base.py", "BaseGateway._thread_receiver"))
+    ok = ok and "except EOFError as exc:\n        log('EOF without prior gateway termination message')\n        self._error = exc" in r.replace('"', "'")
+    return "true" if ok else "false"
+
+
 @fact("loss_epilogue_ok", "bool", "false")
 def _loss_epilogue_ok():
     """_thread_receiver: EOFError is remembered in self._error; whatever ended the loop, the epilogue runs
